@@ -174,8 +174,13 @@ def directed_readds():
             rows[1] = dict({pk: 1}, **x)
         return srvcase.to_remote_tables(base["cfg"], {t["name"]: rows})
     out = []
-    for s0, s2 in itertools.product(states, states):
+    # (with an older queued 'modified' that took the attribute from 3 to its value in S0, the object may
+    #  also come back with the attribute at 3 again: the re-added object then equals the stale cached one)
+    back = [{a: 3, b: y} for y in (None, 1, 2)]
+    for s0, s2 in list(itertools.product(states, states)) + list(itertools.product(states, back)):
         for older in (False, True, "partial"):
+            if s2[a] == 3 and not older:
+                continue
             c = copy.deepcopy(base)
             polls = [tables(s0)]
             n = 4
